@@ -137,7 +137,7 @@ CLAIMS = {
     },
     "C18": {
         "engine": "E2-mirsym",
-        "text": "For a fixed family of eight A2ML definitions the whole loader (A2ML capture, runtime A2ML parser, type-directed IF_DATA parser, fallback parser, writer, ifdata_cleanup) is executed by the symbolic executor on a conforming and on a deviating instance, with LF and CRLF line ends: validity flag is exact, every token survives load and write, and ifdata_cleanup removes exactly the invalid blocks; definitions whose sequence element matches zero tokens must not make loading spin.",
+        "text": "For a fixed family of twelve A2ML definitions the whole loader (A2ML capture, runtime A2ML parser, type-directed IF_DATA parser, fallback parser, writer, ifdata_cleanup) is executed by the symbolic executor on a conforming and on a deviating instance, with LF and CRLF line ends: validity flag is exact, every token survives load and write, and ifdata_cleanup removes exactly the invalid blocks; definitions whose sequence element matches zero tokens must not make loading spin.",
         "design_ref": "DESIGN.md section 4 C18",
         "note": "NOT a claim over all A2ML definitions: a bounded family enumerated by forking. Trusted: E2 std models. Outside: built-in specification argument, depth > 2, generated instances.",
         "technique": "bounded symbolic execution of MIR (fork per definition/instance/line-end), step budget + native watchdog for non-termination, native replay",
